@@ -3,7 +3,17 @@ families = correspondence families (harness `gen <fam>`) with quick-tier op coun
 monitor = number of monitor cases in the quick tier (harness `monitor <id>`)."""
 
 PROPS = {
+    "C06": {
+        "ix_monitor": 8000,
+        "families": {"bank": 12000, "curve": 12000},
+        "assumptions": [
+            "bank totals and share values non-negative (BankOk; invariants of C02/C07)",
+            "the call order inside a handler is its source order (the skeleton translator orders calls by position in the function body; no closures reorder them)",
+            "conservation of value across an accrual (debt increase = deposit increase + fees within the allowance) is checked by the instruction-level monitor C01/C06 with exact big integers and the derived allowance; its Lean proof is the subject of C01's accrual lemma",
+        ],
+    },
     "C02": {
+        "ix_monitor": 6000,
         "families": {"wrapper": 20000, "bank": 6000},
         "monitor": 20000,
         "assumptions": [
@@ -21,6 +31,7 @@ PROPS = {
         ],
     },
     "C17": {
+        "ix_monitor": 6000,
         "families": {"wrapper": 20000, "bank": 12000, "fx": 4000},
         "monitor": 20000,
         "assumptions": [
@@ -61,6 +72,12 @@ _NOTE = ("Trusted: Lean kernel; axioms propext/Classical.choice/Quot.sound only 
          "and by diffing model vs real code on generated operations. ")
 
 MANIFEST_TEXT = {
+    "C06": {
+        "text": "Machine-checked Lean 4 theorems: for every bank state and every accepted rate configuration a successful accrue_interest never decreases either share value, leaves share totals untouched, never decreases a fee bucket, adds zero program fees when disabled for the group, sets last_update = now, is a no-op at dt = 0 (and hence when repeated at the same time), and only moves last_update when either side is empty. 'Applied first' is a theorem (by decide) over handler skeletons REGENERATED from the Rust source on every run: accrue_interest precedes every share-moving call in deposit/withdraw/borrow/repay/close_balance/handle_bankruptcy and both banks' accruals precede every position change in liquidate. The accrual model is diffed against the real Bank::accrue_interest (~12k cases/run); after every successful real instruction (real dispatch) last_update = clock, monotonicity and fee non-negativity are monitored.",
+        "design_ref": "DESIGN.md §4 C06",
+        "note": _NOTE + "Value conservation across an accrual is currently established by the exact-arithmetic monitor with a derived allowance (DESIGN §4 C01), not yet by a Lean theorem; stated as partial.",
+        "technique": "Lean 4 proof: function theorems on the accrual model + decide over source-generated handler skeletons; model/implementation correspondence check",
+    },
     "C02": {
         "text": "Machine-checked Lean 4 invariant over ALL histories (induction over arbitrary op lists, any number of positions): bank.total_asset_shares = sum of position asset shares + dustA, likewise liabilities, dust >= 0, all shares >= 0; every increase/decrease changes a bank total by exactly the change of the one position it touches (delta-equality theorems); dust grows only in withdraw_all / repay_all / close_balance by the abandoned other-side shares whose value the code checked to be below ZERO_AMOUNT_THRESHOLD; corollary: the close_bank tolerance test forces every position in the bank below the threshold. Model diffed against the real wrapper on ~26k steps/run; the same sum identity is monitored on a real Bank with several real Balances over random histories.",
         "design_ref": "DESIGN.md §4 C02",
